@@ -138,8 +138,11 @@ class Ctx:
 
     def eq(self, name, a, b, tol=0):
         """a == b exactly when tol == 0; else |a-b| <= tol*(1 + max|b| over the declared input box)
-        (an absolute margin scaled by the largest magnitude b can take; used only where inexact
-        float64 constants such as unit factors are on the path)"""
+        (an absolute margin scaled by the largest magnitude b can take), or, when b depends on an
+        input without a declared box, |a-b| <= tol*(1+|b|).  Used only where inexact float64
+        constants such as unit factors are on the path.  Exact replay uses tol*(1+|b|) at the
+        replayed point, which is never larger than either form, so a symbolic counterexample is
+        also an exact one."""
         for nm, x, y in self._pairs(name, a, b):
             if self.sym:
                 if isinstance(x, SC) or isinstance(y, SC):
@@ -157,12 +160,20 @@ class Ctx:
                     cond = (d == 0)
                 else:
                     yb = self.ex.abs_bound(y)
-                    atol = Fraction(tol) * (1 + (yb if yb is not None else 0))
-                    cond = (d <= atol) & (d >= -atol)
+                    if yb is not None:
+                        atol = Fraction(tol) * (1 + yb)
+                        cond = (d <= atol) & (d >= -atol)
+                    else:
+                        # b is not confined to a declared box: margin relative to b itself,
+                        # |d| <= tol*(1+|b|), written without abs so that it stays polynomial
+                        atol = None
+                        t = Fraction(tol)
+                        hi1, hi2 = t * (1 + y), t * (1 - y)
+                        cond = ((d <= hi1) | (d <= hi2)) & ((-d <= hi1) | (-d <= hi2))
                 strong = None
                 if not d.is_const():
                     strong = And(d * d >= Fraction(1, 10000) * (1 + y * y), *self._boxc(100))
-                if tol == 0:
+                if tol == 0 or atol is None:
                     self.check(nm, cond, strong=strong)
                 else:
                     self.check(nm, cond, strong=strong, margin=(d, atol))
